@@ -72,6 +72,14 @@ def build(cfg):
     build_captured.
     """
     c = cfg["cls"]
+    if cfg.get("ints") == "np":
+        # NumPy-typed integer parameters (what a caller gets from
+        # array shapes / numpy arithmetic): same values, other type
+        import numpy as np
+        cfg = dict(cfg)
+        for k in ("n", "ram", "disk", "s", "period", "bs"):
+            if isinstance(cfg.get(k), int):
+                cfg[k] = np.int64(cfg[k])
     if c == "SingleMemory":
         return cs.SingleMemoryStorageSchedule()
     if c in ("SingleDiskCopy", "SingleDiskMove"):
